@@ -171,7 +171,20 @@ class MarginRule(cssrule.CSSRule):
                 # TODO?
                 # , exception=xml.dom.InvalidModificationErr
             ),
-            Sequence(PreDef.S(), minmax=lambda: (0, None)),
+            Sequence(
+                Choice(
+                    PreDef.S(),
+                    Prod(
+                        name='comment',
+                        match=lambda t, v: t == 'COMMENT',
+                        toSeq=lambda t, tokens: (
+                            cssutils.css.CSSComment,
+                            cssutils.css.CSSComment(t[1]),
+                        ),
+                    ),
+                ),
+                minmax=lambda: (0, None),
+            ),
             PreDef.char('OPEN', '{'),
             Sequence(
                 Choice(PreDef.unknownrule(toStore='@'), styletokens),
@@ -180,8 +193,9 @@ class MarginRule(cssrule.CSSRule):
             PreDef.char('CLOSE', '}', stopAndKeep=True),
         )
         # parse, white space is significant in values (``calc(1px + 2px)``)
+        # and a comment inside the block belongs to the declarations
         ok, seq, store, unused = ProdParser().parse(
-            cssText, 'MarginRule', prods, checkS=True
+            cssText, 'MarginRule', prods, checkS=True, commentsAsTokens=True
         )
 
         if ok:
